@@ -473,10 +473,13 @@ impl Scenario for Death {
         let mut v = Vec::new();
         let thorough = tier == "thorough";
         // crash points of the server->client stream (about 330 bytes in the default schedule)
-        let offsets: Vec<usize> = if thorough { (0..=340).collect() } else { (0..=340).step_by(3).chain([1, 7, 8, 77, 79, 85, 97, 98, 110, 112, 127, 128].into_iter()).collect() };
+        let offsets: Vec<usize> = if thorough { (0..=340).collect() } else { (0..98).step_by(3).chain([1, 7, 8, 77, 79, 85, 97].into_iter()).chain(98..=300).collect() };
         for at in offsets {
             for fault in ["eof", "readerr"] {
                 v.push(json!({"fault": fault, "at": at, "bound": 16}));
+            }
+            if at % 4 == 0 || thorough {
+                v.push(json!({"fault": "readerr-interrupted", "at": at, "bound": 16}));
             }
         }
         // the same faults while the client's own close is in flight (nobody waits on the consumer,
@@ -503,7 +506,7 @@ impl Scenario for Death {
         v
     }
     fn bound(&self, tier: &str, p: &Value) -> usize {
-        let sweep = p["fault"] == "eof" || p["fault"] == "readerr";
+        let sweep = p["fault"] == "eof" || p["fault"] == "readerr" || p["fault"] == "readerr-interrupted";
         match (tier == "thorough", sweep) {
             (false, true) => 1,
             (false, false) => 2,
@@ -523,6 +526,7 @@ impl Scenario for Death {
         match p["fault"].as_str().unwrap() {
             "eof" => cfg.crash_after_inbound = Some((p["at"].as_u64().unwrap() as usize, vh::sim::world::FaultKind::ReadEof)),
             "readerr" => cfg.crash_after_inbound = Some((p["at"].as_u64().unwrap() as usize, vh::sim::world::FaultKind::ReadErr)),
+            "readerr-interrupted" => cfg.crash_after_inbound = Some((p["at"].as_u64().unwrap() as usize, vh::sim::world::FaultKind::ReadErrInterrupted)),
             "writeerr" => cfg.fail_write_call = Some(p["call"].as_u64().unwrap() as usize),
             "malformed" => broker.corrupt_frame = Some(p["frame"].as_u64().unwrap() as usize),
             "silence" => broker.silent_after_handshake = true,
@@ -557,7 +561,7 @@ impl Scenario for Death {
         let got_tx = o.io_events.iter().any(|e| matches!(e, IoEvent::Frame(AMQPFrame::Method(_, AMQPClass::Tx(_)))));
         let want: Vec<String> = match fault {
             "eof" => vec!["Err(UnexpectedSocketClose)".into()],
-            "readerr" => vec!["Err(IoErrorReadingSocket)".into()],
+            "readerr" | "readerr-interrupted" => vec!["Err(IoErrorReadingSocket)".into()],
             "writeerr" => vec!["Err(IoErrorWritingSocket)".into()],
             "malformed" => vec!["Err(MalformedFrame)".into()],
             "silence" => vec!["Err(MissedServerHeartbeats)".into()],
